@@ -7,6 +7,19 @@ use vcommon::en::W;
 use vcommon::report::*;
 use vcommon::v::Ref;
 
+// for types that are neither known nor GREASE every dispatcher must answer Unknown(type, data),
+// i.e. exactly what the generic reference says
+static EXT_CLIENT_REF: Target = Target {
+    name: "parse_tls_client_hello_extension",
+    run: |b| vchecks::mirror::call(b, tls_parser::parse_tls_client_hello_extension),
+    reference: vcommon::reference::wire::ref_extension,
+};
+static EXT_SERVER_REF: Target = Target {
+    name: "parse_tls_server_hello_extension",
+    run: |b| vchecks::mirror::call(b, tls_parser::parse_tls_server_hello_extension),
+    reference: vcommon::reference::wire::ref_extension,
+};
+
 struct Field {
     name: &'static str,
     bits: u32,
@@ -126,7 +139,7 @@ fn fields() -> Vec<Field> {
     add("heartbeat extension mode", 8, vec![&EXTENSION], Box::new(|x| cat::ext_with(15, &[x as u8])));
     add("max_fragment_length code", 8, vec![&EXTENSION], Box::new(|x| cat::ext_with(1, &[x as u8])));
     add("extension type (parse_tls_extension_unknown)", 16, vec![&EXT_UNKNOWN], Box::new(|x| cat::ext_with(x as u16, &[1, 2, 3])));
-    add("extension type (dispatcher, unassigned / GREASE types keep their number)", 16, vec![&EXTENSION, &EXTENSIONS], Box::new(|x| {
+    add("extension type (all three dispatchers and the list parser; unassigned / GREASE types keep their number)", 16, vec![&EXTENSION, &EXTENSIONS, &EXT_CLIENT_REF, &EXT_SERVER_REF], Box::new(|x| {
         // known types would select a structure: map them onto a neighbouring unassigned value
         let t = x as u16;
         let t = if vcommon::reference::iana::KNOWN_EXT_TYPES.contains(&t) { t ^ 0x4000 } else { t };
